@@ -144,6 +144,7 @@ fn check_map<T: BackingContainer<usize, u32>>(
     what: &str,
 ) -> Option<Violation> {
     for k in 0..nkeys {
+        let k = rk(k as u8);
         let got = map.get(&k).copied();
         let want = model.top().get(&k).copied();
         if got != want {
@@ -260,9 +261,9 @@ where
         let step = base_step + i + 1;
         match op {
             MapOp::Insert { k, v, global } => {
-                let existed = model.top().contains_key(&(*k as usize));
+                let existed = model.top().contains_key(&(rk(*k)));
                 let r = map.insert(
-                    *k as usize,
+                    rk(*k),
                     *v,
                     if *global { Scope::Global } else { Scope::Local },
                 );
@@ -281,12 +282,12 @@ where
                 if *global && model.stack.len() >= 3 {
                     *stats.entry("reach.map_global_insert_at_depth_ge_2").or_insert(0) += 1;
                 }
-                model.insert(*k as usize, *v, *global);
+                model.insert(rk(*k), *v, *global);
             }
             MapOp::Extend(pairs) => {
-                map.extend(pairs.iter().map(|(k, v)| (*k as usize, *v)));
+                map.extend(pairs.iter().map(|(k, v)| (rk(*k), *v)));
                 for (k, v) in pairs {
-                    model.insert(*k as usize, *v, false);
+                    model.insert(rk(*k), *v, false);
                 }
                 *stats.entry("reach.map_extend").or_insert(0) += 1;
             }
@@ -770,6 +771,12 @@ fn eval_interner(
         ev.bump("reach.colliding_chain_length_ge_3");
     }
     ev.nontrivial = issued.len() >= 2 && (restarts > 0 || hasher != HasherKind::Random);
+}
+
+/// The key an operation's key index stands for: four dense keys, then two far beyond them (for
+/// the vector-backed map: holes, growth and shrinking by hundreds of slots).
+fn rk(k: u8) -> usize {
+    [0usize, 1, 2, 3, 70, 300][k as usize % 6]
 }
 
 // ---------------------------------------------------------------- matcher
